@@ -807,14 +807,54 @@ impl Demo {
     fn touch(&mut self) {}
 }
 
+/// The lock kinds `register_struct_shared` / `with_struct_shared` accept (`Lockable`).
+enum DLock {
+    Std(Arc<Mutex<Demo>>),
+    Rw(Arc<std::sync::RwLock<Demo>>),
+    TokioM(Arc<tokio::sync::Mutex<Demo>>),
+    TokioRw(Arc<tokio::sync::RwLock<Demo>>),
+}
+impl DLock {
+    fn new(kind: u64) -> DLock {
+        match kind % 4 {
+            0 => DLock::Std(Arc::new(Mutex::new(Demo::default()))),
+            1 => DLock::Rw(Arc::new(std::sync::RwLock::new(Demo::default()))),
+            2 => DLock::TokioM(Arc::new(tokio::sync::Mutex::new(Demo::default()))),
+            _ => DLock::TokioRw(Arc::new(tokio::sync::RwLock::new(Demo::default()))),
+        }
+    }
+    fn mount(&self, router: Router, root: &str, builder_style: bool) -> Router {
+        macro_rules! go {
+            ($l:expr, $L:ty) => {{
+                if builder_style {
+                    router.with_struct_shared::<Demo, $L>(root, $l.clone())
+                } else {
+                    let mut r = router;
+                    r.register_struct_shared::<Demo, $L>(root, $l.clone());
+                    r
+                }
+            }};
+        }
+        match self {
+            DLock::Std(l) => go!(l, Mutex<Demo>),
+            DLock::Rw(l) => go!(l, std::sync::RwLock<Demo>),
+            DLock::TokioM(l) => go!(l, tokio::sync::Mutex<Demo>),
+            DLock::TokioRw(l) => go!(l, tokio::sync::RwLock<Demo>),
+        }
+    }
+}
+
 struct DState {
-    demo: Arc<Mutex<Demo>>,
+    demo: DLock,
     written: BTreeMap<String, Vec<u8>>, // relative path -> canonical JSON last accepted by a write
     ops: Vec<String>,
 }
 impl DState {
     fn new() -> DState {
-        DState { demo: Arc::new(Mutex::new(Demo::default())), written: BTreeMap::new(), ops: vec![] }
+        DState::with_lock(0)
+    }
+    fn with_lock(kind: u64) -> DState {
+        DState { demo: DLock::new(kind), written: BTreeMap::new(), ops: vec![] }
     }
 }
 
@@ -827,14 +867,8 @@ fn exec_dstruct(out: &mut Out, ds: &mut DState, line: &str, w: &[&str]) -> (Stri
     let (Some(root), Some(path), Ok(bfmt), Some(body)) = (unshex(w[2]), unshex(w[3]), w[4].parse::<u16>(), unhex(w[5])) else { return bad() };
     ds.ops.push(line.to_string());
     let ops = ds.ops.clone();
-    let mut router = Router::new();
-    // the lock kind is a function of the op index: Mutex via register_struct_shared, or the same
-    // Arc<Mutex<_>> through with_struct_shared
-    if idx.len() % 2 == 0 {
-        router.register_struct_shared::<Demo, Mutex<Demo>>(&root, ds.demo.clone());
-    } else {
-        router = router.with_struct_shared::<Demo, Mutex<Demo>>(&root, ds.demo.clone());
-    }
+    // builder (`with_struct_shared`) or in-place (`register_struct_shared`) registrar, by op parity
+    let router = ds.demo.mount(Router::new(), &root, idx.len() % 2 == 0);
     let Some(h) = router.get(&path) else {
         out.count("dstruct.none");
         return (format!("{} none", idx), false);
@@ -954,7 +988,8 @@ fn exec_line(out: &mut Out, sc: &mut Scen, ds: &mut DState, line: &str) {
             out.case(line, &obs, nt);
         }
         "dreset" => {
-            *ds = DState::new();
+            *ds = DState::with_lock(n(2));
+            out.count(&format!("dreset.lock{}", n(2) % 4));
             ds.ops.push(line.to_string());
             out.config(line);
         }
@@ -1143,7 +1178,8 @@ impl Gen {
             "", "/a", "/ro", "/inner", "/inner/x", "/inner/deep", "/inner/deep/z", "/echo", "/ping", "/touch", "/", "/a/", "/a/b", "/nope", "/inner/nope",
             "/inner/deep/z/q", "/inner//x", "/ping/x", "/a~0", "/inner~1x", "/inner/deep/z/1/2/3/4/5/6/7/8/9/10/11/12/13/14/15/16",
         ];
-        self.push("dreset", "");
+        let lock = self.rng.below(4);
+        self.push("dreset", &lock.to_string());
         let root = *self.rng.pick(ROOTS);
         let norm = if root.is_empty() { String::new() } else if root.starts_with('/') { root.to_string() } else { format!("/{}", root) };
         for _ in 0..self.rng.range(8, 30) {
